@@ -18,17 +18,31 @@ def _alarm(*a):
 
 
 class time_limit:
+    """with time_limit(s): ... raises Timeout inside the block after s seconds (repeating every 0.5 s in
+    case a bare except swallows it).  Re-entrant: an enclosing limit is restored on exit."""
+
     def __init__(self, seconds):
         self.seconds = seconds
 
     def __enter__(self):
+        import time
+
+        self.t0 = time.time()
         self.old = signal.signal(signal.SIGALRM, _alarm)
-        # repeating: if a bare except swallows the first one, the next fires 0.5 s later
-        signal.setitimer(signal.ITIMER_REAL, self.seconds, 0.5)
+        self.prev = signal.getitimer(signal.ITIMER_REAL)  # (remaining, interval) of an enclosing limit
+        secs = self.seconds
+        if self.prev[0] > 0:
+            secs = min(secs, self.prev[0])
+        signal.setitimer(signal.ITIMER_REAL, max(secs, 0.01), 0.5)
 
     def __exit__(self, *a):
+        import time
+
         signal.setitimer(signal.ITIMER_REAL, 0, 0)
         signal.signal(signal.SIGALRM, self.old)
+        if self.prev[0] > 0:
+            left = self.prev[0] - (time.time() - self.t0)
+            signal.setitimer(signal.ITIMER_REAL, max(left, 0.01), self.prev[1] or 0.5)
         return False
 
 
